@@ -124,7 +124,8 @@ func (r *renderer) docLines(t *TypeDecl) []string {
 	return d
 }
 
-func (r *renderer) typeDecl(t *TypeDecl) {
+// typeDecl renders t; members are further specs of the same type ( ... ) group.
+func (r *renderer) typeDecl(t *TypeDecl, members ...*TypeDecl) {
 	r.before(&t.Node)
 	prefix := "type "
 	if t.Grouped {
@@ -132,6 +133,33 @@ func (r *renderer) typeDecl(t *TypeDecl) {
 		r.indent++
 		prefix = ""
 	}
+	r.typeSpec(t, prefix)
+	t.GroupEnd = 0
+	for _, m := range members {
+		r.lines = append(r.lines, "")
+		r.before(&m.Node)
+		r.typeSpec(m, "")
+		t.GroupEnd = m.End
+	}
+	if t.Grouped {
+		r.indent--
+		r.emit(")")
+	}
+	for _, m := range append([]*TypeDecl{t}, members...) {
+		for _, ir := range m.ImplRefs {
+			if ir.Raw != "" {
+				continue
+			}
+			if ir.Iface.Pkg != r.f.Pkg || r.f.Kind == FileXTest {
+				// the annotation's qualifier must be bound by an import of this file
+				r.emit("")
+				r.emit("var _ %s%s", r.qual(ir.Iface.Pkg), ir.Iface.Name)
+			}
+		}
+	}
+}
+
+func (r *renderer) typeSpec(t *TypeDecl, prefix string) {
 	for _, d := range r.docLines(t) {
 		r.emit("%s", d)
 	}
@@ -195,20 +223,6 @@ func (r *renderer) typeDecl(t *TypeDecl) {
 		}
 		r.indent--
 		t.End = r.emit("}%s", r.trailLast(&t.Node))
-	}
-	if t.Grouped {
-		r.indent--
-		r.emit(")")
-	}
-	for _, ir := range t.ImplRefs {
-		if ir.Raw != "" {
-			continue
-		}
-		if ir.Iface.Pkg != r.f.Pkg || r.f.Kind == FileXTest {
-			// the annotation's qualifier must be bound by an import of this file
-			r.emit("")
-			r.emit("var _ %s%s", r.qual(ir.Iface.Pkg), ir.Iface.Name)
-		}
 	}
 }
 
@@ -706,13 +720,29 @@ func (p *Prog) Render() {
 
 func renderFile(f *File) {
 	r := &renderer{f: f, imports: map[*Pkg]bool{}}
+	skip := 0
 	for i, d := range f.Decls {
+		if skip > 0 {
+			skip--
+			continue
+		}
 		if i > 0 {
 			r.lines = append(r.lines, "")
 		}
 		switch d := d.(type) {
 		case *TypeDecl:
-			r.typeDecl(d)
+			var members []*TypeDecl
+			if d.Grouped {
+				for j := i + 1; j < len(f.Decls); j++ {
+					m, ok := f.Decls[j].(*TypeDecl)
+					if !ok || !m.JoinPrev || m.Grouped {
+						break
+					}
+					members = append(members, m)
+				}
+			}
+			skip = len(members)
+			r.typeDecl(d, members...)
 		case *FuncDecl:
 			r.funcDecl(d)
 		case *VarDecl:
@@ -733,8 +763,14 @@ func renderFile(f *File) {
 		}
 	}
 	sort.Slice(imps, func(i, j int) bool { return imps[i].Dir < imps[j].Dir })
-	if len(imps)+len(blanks) > 0 {
+	if f.Unsafe {
+		r.lines = append(r.lines, "", "var _ unsafe.Pointer")
+	}
+	if len(imps)+len(blanks) > 0 || f.Unsafe {
 		head = append(head, "import (")
+		if f.Unsafe {
+			head = append(head, "\t\"unsafe\"")
+		}
 		for _, bp := range blanks {
 			head = append(head, fmt.Sprintf("\t_ %q", bp.Path()))
 		}
@@ -758,6 +794,9 @@ func shiftNode(n *Node, off int) {
 	if n.Start > 0 {
 		n.Start += off
 		n.End += off
+	}
+	if n.GroupEnd > 0 {
+		n.GroupEnd += off
 	}
 }
 
